@@ -400,6 +400,9 @@ fn aot(args: &Cli) -> anyhow::Result<()> {
         }
     }
 
+    // BufWriter swallows write errors on drop: a full disk must not look like success.
+    writer.flush().context(path.to_owned())?;
+
     Ok(())
 }
 
